@@ -90,11 +90,20 @@ func genE2EStep(t *rapid.T, ifaces []string, id int, errorsOften bool) Step {
 			if rapid.IntRange(0, 4).Draw(t, "np") != 0 {
 				op.P = genDoc(t, "rp")
 			}
+			if rapid.IntRange(0, 9).Draw(t, "gov") == 0 {
+				op.Go = rapid.SampledFrom([]string{"struct", "ptr", "named", "map", "typed"}).Draw(t, "govkind")
+				op.P = GoValueJSON(op.Go)
+			}
 			return op
 		case r <= 9:
 			op := Op{Op: "error", Name: genErrorName(t)}
 			if rapid.IntRange(0, 3).Draw(t, "np") != 0 {
 				op.P = genDoc(t, "ep")
+			}
+			if rapid.IntRange(0, 5).Draw(t, "gov") == 0 {
+				// the handler passes a typed Go value (an empty struct in its various guises, a tagged struct) rather than raw JSON
+				op.Go = rapid.SampledFrom([]string{"struct", "ptr", "named", "map", "typed"}).Draw(t, "govkind")
+				op.P = GoValueJSON(op.Go)
 			}
 			return op
 		default:
